@@ -14,7 +14,12 @@ MANIFEST = {
             "(T9), the byte table too (T1); the hand-written machine is tied to the code by a correspondence run comparing every "
             "retired state, visit counters, fork counters, per-thread gas, errors and poll counts, and the bounds are also evaluated "
             "directly on the implementation's output. Halting of the whole analysis (lifting, inference, unification) is searched for "
-            "with a poll-budget watchdog on the same programs.",
+            "with a poll-budget watchdog on the same programs. END TO END (props/C03_pipeline.v, composed model coq/Pipeline.v): "
+            "pipeline_halts -- for every byte string (<= 2^32 bytes), configuration with iteration limit >= 1, hash function, table "
+            "and order mode, under the fuel record {f_vm > (1+F*len)*(I*len+1), f_rounds >= |type variables| + 2} a program whose "
+            "judgement set is packed-free never yields one of the model's out-of-fuel results (PFuelVm, PFuelUnify, PFuelFind, "
+            "abi_type_for's EOutOfFuel): it returns a layout, a structured error or a watchdog stop; pipeline_vm_halts / "
+            "pipeline_tc_halts are the two halves.",
     "note": "Trusted: Coq kernel + vm_compute; translator T1/T9; harness; hooks H2/H3 (deterministic ids, per-thread gas log). The "
             "termination theorem covers the VM; for the type checker only lifting/registration/rules are structurally terminating -- "
             "unification's termination is searched, not yet proved (see DESIGN.md C03/C14).",
@@ -68,6 +73,7 @@ def inputs(ctx):
 def check(ctx):
     vlib.translate(ctx)
     vlib.prove(ctx, "props/C03.v", ["VmCases.vo", "UnifyCases.vo"])
+    vlib.prove(ctx, "props/C03_pipeline.v")   # the composed model: no out-of-fuel result under C03's fuel record
     hb = vlib.harness_bin(ctx)
     progs = inputs(ctx)
     keys = list(progs.keys())
